@@ -22,6 +22,10 @@ CHECKS = {
    technique="TLA+ reference relation Redact (Preserving + Complete) evaluated by TLC on every (text, redacted text) event recorded from the real redactEmail transform over the complete space of short texts plus generated texts",
    text="The real redactEmail transform is run on every text of length <=5 (thorough <=7, 5.4 million) over 9 symbols including '@', '/', separators and a 2-byte character, and on seeded generated texts with 0-4 addresses at all adjacencies; TLC validates every event against the relation the statement demands: the output is the input with disjoint spans of address characters around one '@' replaced by REDACTED (everything else byte for byte), no unambiguous address of the supported shape remains once the tokens are masked, and the label counter moved iff the text changed. The relation is one-sided where the statement leaves a choice, so it cannot alarm on over-redaction of borderline candidates.",
    note="Inputs are lower case (tokens identifiable); Complete only demands redaction of addresses whose every label is well-formed; the symbol alphabet bounds the byte contents."),
+ "C09": dict(cat="model_checking", ref="5.12", engine="functions",
+   technique="TLA+ reference definition Syslog (well-formedness, fields, UTF-8-safe cut, accounting) evaluated by TLC on every parser call recorded from the real syslog parser over an enumerated space of lines",
+   text="The real syslogparser (limits lowered through the code's own variables) parses every line of the enumerated space - all PRI values under three level mappings, first-token framings, token value classes, missing/empty tokens, prefixes of a valid line, message bodies with every tail of multi-byte/invalid/newline symbols around the cut position behind headers below/at/above the record limit - and each call is logged with the record's fields, the Unescaped flag and the deltas of the passed/dropped/overflow counters; TLC validates every event against Syslog!Check: a well-formed line yields exactly its facility, mapped level, six tokens and message (cut at a character boundary and counted as overflow when over-long); every line is counted exactly once with its length; never a panic.",
+   note="Well-formed = canonical PRI, version 1, six non-empty tokens, a message part; exact message demanded for structurally valid UTF-8; limits 12/64 instead of 1 MiB (same code path, the limits are variables)."),
 }
 NOT_YET = {
 }
